@@ -89,7 +89,51 @@ def eval_line(ctx, cat, line, draw, recorded=None, absent=None):
     return out, log
 
 
+def nested_function_lines(path):
+    """line numbers inside functions that are defined inside a method (the value
+    functions of the forms), excluding their def lines"""
+    import ast
+    with open(path) as f:
+        tree = ast.parse(f.read())
+    lines = set()
+
+    def visit(node, depth):
+        for ch in ast.iter_child_nodes(node):
+            if isinstance(ch, (ast.FunctionDef, ast.AsyncFunctionDef)):
+                if depth >= 1:
+                    for sub in ch.body:
+                        for nn in ast.walk(sub):
+                            if hasattr(nn, 'lineno') and isinstance(nn, ast.stmt):
+                                lines.add(nn.lineno)
+                visit(ch, depth + 1)
+            else:
+                visit(ch, depth)
+    visit(tree, 0)
+    return lines
+
+
 def shard(ctx, k, payload):
+    year, names, n, seed = payload
+    cov = None
+    try:
+        import coverage
+        cov = coverage.Coverage(data_file=None, branch=False, include=['*/habutax/forms/ty*/*.py'])
+        cov.start()
+    except Exception:
+        cov = None
+    try:
+        _shard(ctx, k, payload)
+    finally:
+        if cov is not None:
+            cov.stop()
+            data = cov.get_data()
+            for fn in data.measured_files():
+                got = data.lines(fn) or []
+                for ln in got:
+                    ctx.note('_cov', f'{fn}|{ln}')
+
+
+def _shard(ctx, k, payload):
     year, names, n, seed = payload
     cat = catalog.get(year)
     absent = set()
@@ -163,6 +207,27 @@ def run(ctx):
             payloads.append((year, c, n, ctx.seed * 7919))
     hyp.pmap(ctx, shard, payloads)
     check_absent_forms(ctx)
+    # measurement only: statement coverage of the value functions written as nested defs
+    covered = {}
+    for item in ctx.lists.pop('_cov', set()):
+        fn, ln = item.rsplit('|', 1)
+        covered.setdefault(fn, set()).add(int(ln))
+    tot = hit = 0
+    import glob
+    import habutax
+    root = os.path.dirname(habutax.__file__)
+    for path in sorted(glob.glob(os.path.join(root, 'forms', 'ty*', 'f*.py'))):
+        want = nested_function_lines(path)
+        if not want:
+            continue
+        got = covered.get(path, set()) & want
+        tot += len(want)
+        hit += len(got)
+        miss = sorted(want - got)
+        if miss:
+            ctx.note('value_function_statements_never_executed', f'{os.path.relpath(path, root)}: lines {miss[:25]}')
+    ctx.extra['value_function_statements'] = tot
+    ctx.extra['value_function_statements_executed'] = hit
     ctx.extra['lines_fuzzed'] = total_lines
     ctx.extra['cases_per_line'] = n
 
